@@ -1,4 +1,6 @@
 import Cvise.Model.World
+import Cvise.Proofs.WorldFS
+import Cvise.Proofs.DriverStats
 import Cvise.Gen.World
 /-!
 # C04 — originals are preserved (`backup_test_cases` over a file map)
@@ -89,5 +91,53 @@ theorem modes_back_when_pass_completes (orig : List Nat) (steps : List (List Nat
 
 /-- without the call at the end a pass that resets the mode and accepts nothing leaves the file at 0600 -/
 theorem modes_lost_without_restore : passModes false [0o640] [fun _ => [0o600]] = [0o600] := by decide
+
+/-! ### the frame: what a reduction can touch in the working directory
+
+`W.afterReduceD names … tidy fs log disk` is the working directory after a reduction whose ghost log is `log` and whose
+test cases end as `disk`: backups first
+(unless `--tidy`), then one action per logged event — a commit or a replay writes the named test case, a bug / extra report
+creates an entry under a report-directory name.  The theorems hold for **every** event list, hence for the log of every
+run of the driver model (`frame_for_every_run`), whatever the passes, the test, the schedule and the limits. -/
+
+/-- **only the named test cases are touched**: a path that is not a test case, not the `.orig` of one and not under a
+    report-directory name holds after the reduction what it held before -/
+theorem only_test_cases_touched (names : List String) (bugName extraName : Nat → String)
+    (hb : ∀ n, isReportPath (bugName n) = true) (he : ∀ n, isReportPath (extraName n) = true)
+    (tidy : Bool) (fs : FS) (log : List (D.Ev Bytes)) (disk : List Bytes) (p : String) (hp : Untouchable names p) :
+    lookupFS (afterReduceD names bugName extraName tidy fs log disk) p = lookupFS fs p :=
+  reduceD_frame names bugName extraName hb he tidy fs log disk p hp
+
+/-- **the original survives**: nothing a reduction does writes a backup path, so `X.orig` holds after the reduction what
+    `backup_test_cases` put there at the start (`backup_creates`: the original bytes of `X`) or found there
+    (`backup_preserves`: the backup that already existed) -/
+theorem original_survives (names : List String) (bugName extraName : Nat → String)
+    (hb : ∀ n, isReportPath (bugName n) = true) (he : ∀ n, isReportPath (extraName n) = true)
+    (fs : FS) (log : List (D.Ev Bytes)) (disk : List Bytes) (f : String)
+    (hn : f ++ ".orig" ∉ names) (hr : isReportPath (f ++ ".orig") = false) :
+    lookupFS (afterReduceD names bugName extraName false fs log disk) (f ++ ".orig") = lookupFS (backup fs names) (f ++ ".orig") :=
+  reduceD_keeps_backups names bugName extraName hb he fs log disk f hn hr
+
+/-- … in particular for the log of every run of the L2 driver model over byte contents -/
+theorem frame_for_every_run {σ : Type} [Inhabited σ] (cfg : D.Cfg) (Wd : D.World Bytes) (dn : D.Sched) (orderOf : List Bytes → List Nat) (fuel : Nat)
+    (first main last : List (D.PassI Bytes σ)) (x : D.St Bytes)
+    (names : List String) (bugName extraName : Nat → String)
+    (hb : ∀ n, isReportPath (bugName n) = true) (he : ∀ n, isReportPath (extraName n) = true)
+    (tidy : Bool) (fs : FS) (p : String) (hp : Untouchable names p) :
+    lookupFS (afterReduceD names bugName extraName tidy fs (D.LRes.st' (D.reduce cfg Wd dn orderOf fuel first main last x)).side.log
+      (D.LRes.st' (D.reduce cfg Wd dn orderOf fuel first main last x)).disk) p = lookupFS fs p :=
+  reduceD_frame names bugName extraName hb he tidy fs _ _ p hp
+
+/-- non-vacuity: test cases `a.c`, `b.c`; `notes.txt` is untouchable; a commit on `a.c` and a bug report leave it alone
+    and rewrite `a.c` -/
+example : Untouchable ["a.c", "b.c"] "notes.txt" := by
+  refine ⟨by decide, ?_, by decide⟩
+  intro f hf
+  simp only [List.mem_cons, List.mem_nil_iff, or_false] at hf
+  rcases hf with rfl | rfl <;> decide
+example : lookupFS (afterReduce ["a.c", "b.c"] (fun n => s!"cvise_bug_{n}") (fun n => s!"cvise_extra_{n}") false
+    [("a.c", [1]), ("b.c", [2]), ("notes.txt", [3])] [.commit 0 0 [9], .bugdir]) "a.c" = some [9] := by decide
+example : lookupFS (afterReduce ["a.c", "b.c"] (fun n => s!"cvise_bug_{n}") (fun n => s!"cvise_extra_{n}") false
+    [("a.c", [1]), ("b.c", [2]), ("notes.txt", [3])] [.commit 0 0 [9], .bugdir]) "a.c.orig" = some [1] := by decide
 
 end Cvise.C04
